@@ -18,11 +18,20 @@ import (
 	"gosym/vm"
 )
 
-const (
-	RepoDir    = "/repo"
-	VerifDir   = "/verif"
-	HarnessDir = "/verif/harness"
+const RepoDir = "/repo"
+
+// VerifDir is /verif unless GOSYM_VERIF_DIR points at a snapshot of it (background runs).
+var (
+	VerifDir   = verifDir()
+	HarnessDir = VerifDir + "/harness"
 )
+
+func verifDir() string {
+	if d := os.Getenv("GOSYM_VERIF_DIR"); d != "" {
+		return d
+	}
+	return "/verif"
+}
 
 // Family is the set of instances explored for one property at one tier.
 type Family struct {
